@@ -202,7 +202,7 @@ def Seg.match (env : Env) (ic : Interceptors) (s : Seg) (path : Bytes) : MatchRe
       | some (cap, rest) => .yes cap rest
       | none => .no
   | .rx =>
-    if ¬ isAscii path ∨ ¬ isAscii s.suffix then .unsupported
+    if (s.re.wide ∧ ¬ isAscii path) ∨ ¬ isAscii s.suffix then .unsupported
     else match rxMatch s.re s.suffix path with
       | some (cap, rest) => .yes cap rest
       | none => .no
@@ -212,7 +212,7 @@ def Seg.valid (env : Env) (ic : Interceptors) (s : Seg) (v : Bytes) : Option Boo
   match s.kind with
   | .icpt => some (s.accepts env ic v)
   | .rx =>
-    if ¬ isAscii v ∨ ¬ isAscii s.suffix then none
+    if (s.re.wide ∧ ¬ isAscii v) ∨ ¬ isAscii s.suffix then none
     else match rxMatch s.re s.suffix (v ++ s.suffix) with
       | some (_, []) => some true
       | _ => some false
